@@ -34,3 +34,26 @@ Theorem C20_not_restored_without_finally : forall supers handled_l,
   rs_head (fst r) = 0 /\ rs_tmpdir (fst r) = true.
 Proof. exact not_restored_without_finally. Qed.
 Print Assumptions C20_not_restored_without_finally.
+
+(* no leftover temporary files even when the final reset itself fails *)
+Theorem C20_tmpdir_always_removed : forall (commit : Type) F (cur parent : commit) wr (S : scenario),
+  tf_cleanup_in_finally F = true ->
+  rs_tmpdir (fst (run_tool commit F cur parent wr S)) = false.
+Proof. exact tmpdir_always_removed. Qed.
+Print Assumptions C20_tmpdir_always_removed.
+
+(* "its exit status is that of the comparison run", converse direction: an exit status (rather than a traceback)
+   means every step ran, and it is the comparison run's status *)
+Theorem C20_exit_code_sound : forall (commit : Type) F (cur parent : commit) wr (S : scenario) c,
+  (forall e, sc_run1 S = Raised e -> handled F e = false) ->
+  snd (run_tool commit F cur parent wr S) = ExitCode c ->
+  sc_reset1 S = ResetDone /\ sc_reset2 S = ResetDone /\ sc_cleanup_reset S = ResetDone /\
+  (exists c1, sc_run1 S = Exited c1) /\ sc_run2 S = Exited c.
+Proof. exact exit_code_sound. Qed.
+Print Assumptions C20_exit_code_sound.
+
+Theorem C20_report_only_from_comparison_run : forall (commit : Type) F (cur parent : commit) wr (S : scenario),
+  rs_report (fst (run_tool commit F cur parent wr S)) = true ->
+  sc_run2 S = Exited 0%Z \/ sc_run2 S = Exited 1%Z.
+Proof. exact report_only_from_comparison_run. Qed.
+Print Assumptions C20_report_only_from_comparison_run.
